@@ -53,6 +53,10 @@ mut("C09-package-depth-counter", "C09", "process2.go",
     "func process2(obj any, mergeFrom *Document, mergeFromDocs []*Document, ec *EvalContext, depth int) (any, error) {\n	depth++\n\n	if depth > 1000 {",
     "var liveDepth int\n\nfunc process2(obj any, mergeFrom *Document, mergeFromDocs []*Document, ec *EvalContext, depth int) (any, error) {\n	depth++\n	liveDepth++\n	defer func() { liveDepth-- }()\n\n	if liveDepth > 40 {",
     "a package-level depth counter: concurrent / interleaved evaluations add up")
+mut("C09-path-cache-keyed-by-path-only", "C09", "get.go",
+    "func getPathFromString(obj any, docs []*Document, path string) (any, error) {\n	var path2 any\n	err := yaml.Unmarshal([]byte(path), &path2)\n	if err != nil {\n		return nil, err\n	}\n",
+    "var pathCache = map[string]any{}\n\nfunc getPathFromString(obj any, docs []*Document, path string) (any, error) {\n	if v, ok := pathCache[path]; ok {\n		return v, nil\n	}\n	v, err := getPathFromString2(obj, docs, path)\n	if err == nil {\n		if _, scalar := v.(string); scalar {\n			pathCache[path] = v\n		}\n	}\n	return v, err\n}\n\nfunc getPathFromString2(obj any, docs []*Document, path string) (any, error) {\n	var path2 any\n	err := yaml.Unmarshal([]byte(path), &path2)\n	if err != nil {\n		return nil, err\n	}\n",
+    "string results of reference lookups memoised in a package-level map keyed by the path text only: a later evaluation of another document in the same process gets the earlier document's value")
 # ---- C18
 mut("C18-os-open", "C18", "file.go", "fh, err = p.root.Open(relPath)", "_ = relPath\n		fh, err = os.Open(path)")
 mut("C18-second-setroot-ignored", "C18", "parser.go", "func (p *Parser) SetRoot(path string) error {", "func (p *Parser) SetRoot(path string) error {\n	if p.rootPath != \"/\" {\n		return nil\n	}")
